@@ -29,6 +29,17 @@ def _raises(f, *a):
 def run_case(case):
     kind = case["kind"]
     viol = []
+    if kind == "batch":      # many cases in one interpreter (used for the runs under `python -O`)
+        n = 0
+        for sub in case["cases"]:
+            r = run_case(sub)
+            viol += r.get("viol", [])
+            n += 1
+        seen, uniq = set(), []
+        for v in viol:
+            if v["sig"] not in seen:
+                seen.add(v["sig"]); uniq.append(v)
+        return {"viol": uniq[:12], "nontrivial": True, "outcome": f"batch-ok/{n}" if not viol else viol[0]["sig"]}
     orbit_of, _ = R.orbits()
     if kind == "tuple":
         t = tuple(case["t"])
@@ -54,6 +65,17 @@ def run_case(case):
                     spell[label] = _c(*args)
                 except Exception as ex:
                     viol.append(V(f"c10:spelling-rejected:{label}", f"c_{tuple(args)} (numpy integer spelling of {t}) raised {ex!r}"))
+        # the public classmethods, with python and numpy integers (what callers holding index arrays pass)
+        from cij.util import C_
+        for name, conv in (("int", int), ("np.int64", numpy.int64)):
+            for label, make in ((f"C_.create4:{name}", lambda: C_.create(*[conv(x) for x in t])),
+                                (f"C_.create2:{name}", lambda: C_.create(*[conv(x) for x in vp])),
+                                (f"C_.from_standard:{name}", lambda: C_.from_standard(*[conv(x) for x in t])),
+                                (f"C_.from_voigt:{name}", lambda: C_.from_voigt(*[conv(x) for x in vp]))):
+                try:
+                    spell[label] = make()
+                except Exception as ex:
+                    viol.append(V(f"c10:spelling-rejected:{label}", f"{label} for {t} raised {ex!r}"))
         for name, s in spell.items():
             if s != k or hash(s) != hash(k):
                 viol.append(V(f"c10:spelling:{name}", f"{name} spelling of {t} gives {s!r} != {k!r}"))
@@ -152,7 +174,11 @@ def run_case(case):
         f = _c if what == "c" else _e
         args = [a for a in args]
         if not _raises(f, *args):
-            viol.append(V(f"c10:accepts-out-of-range:{what}", f"{what}_{tuple(args)} accepted: {f(*args)!r}"))
+            try:
+                shown = repr(f(*args))
+            except Exception as ex:      # the accepted object cannot even print itself
+                shown = f"<object whose repr raises {type(ex).__name__}>"
+            viol.append(V(f"c10:accepts-out-of-range:{what}", f"{what}_{tuple(args)} accepted: {shown}"))
         return {"viol": viol, "outcome": "rejected" if not viol else "accepted", "key": f"x{what}{args}"}
     raise HarnessError(f"unknown case kind {kind}")
 
@@ -211,7 +237,7 @@ def reject_cases():
 def explore(ctx):
     ctx.rule = ("complete finite domain: 81 standard tuples (each with 8 spellings and its 3 generator edges), "
                 "81x81 ordered equality/hash pairs, 36 Voigt pairs, 9 strain index pairs, out-of-range neighbours "
-                "(0/4 standard, 0/7 Voigt, every position, int and str spellings); non-trivial = every case "
+                "(0/4 standard, 0/7 Voigt, every position, int and str spellings); tuples, pairs and out-of-range cases repeated in an interpreter started with -O; non-trivial = every case "
                 "(each touches a distinct tuple/pair); oracle = orbits of the orbit graph computed by BFS in voigt_ref")
     orbit_of, edges = R.orbits()
     cases = [{"kind": "tuple", "t": list(t)} for t in R.TUPLES]
@@ -224,6 +250,10 @@ def explore(ctx):
             part="strain-pairs", parallel=False)
     ctx.run(MOD, "run_case", reject_cases(), part="out-of-range", parallel=False)
     ctx.run(MOD, "run_case", [{"kind": "global"}], part="global", parallel=False)
+    # the same complete domain in an interpreter started with -O (assert statements stripped)
+    ctx.run_under(MOD, "run_case", [{"kind": "batch", "cases": reject_cases()}, {"kind": "batch", "cases": cases},
+                                    {"kind": "batch", "cases": [{"kind": "voigt", "ab": [a, b]} for a in range(1, 7) for b in range(1, 7)] +
+                                                               [{"kind": "strain", "ij": [i, j]} for i in (1, 2, 3) for j in (1, 2, 3)]}], ("-O",))
     ctx.notes["orbits"] = len(set(orbit_of.values()))
     ctx.notes["orbit_graph_edges"] = len(edges)
     ctx.assumptions = ["CPython tuple hashing", "reference orbits computed by union of generator images (voigt_ref)"]
